@@ -412,6 +412,61 @@ pub fn run(seed: u64, n: u64) {
             }
         }
         println!("{}", out);
+        // ---- consistent lies: presentations built FROM THE START with metadata that differs from the public data
+        // the verifier resolves (single-credential cases whose honest presentation verifies)
+        if creds.len() == 1 && out["verify"] == json!(true) {
+            let lie_row = |name: &str, proved: &str, res: J| println!("{}", json!({"k":"lie","flow":"v0","name":name,"i":i,"seed":seed,"kind":cj[0]["kind"],"cred":cj[0],"prove":proved,"verify":res}));
+            let try_lie = |name: &str, req: Request<ArCurve, W>, inp: CommitmentInputs<'_, ArCurve, W, SigningKey>, public: &[CredentialsInputs<ArCurve>]| {
+                let p = guarded(|| req.prove_with_rng(&global, vec![inp].into_iter(), &mut StdRng::seed_from_u64(seed + i + 99), now));
+                match p {
+                    Ok(Ok(p)) => lie_row(name, "Some", vb(&p, &global, public)),
+                    Ok(Err(_)) => lie_row(name, "Err", J::Null),
+                    Err(_) => lie_row(name, "PANIC", J::Null),
+                }
+            };
+            match &creds[0] {
+                Cred::Account { al, ss, cred_id, issuer, network, values, rand, .. } => {
+                    let stm: Vec<_> = ss.iter().map(|s| mk_stmt::<W, _>(s, AttributeTag(s.tag()))).collect();
+                    let on = if *network == Network::Testnet { Network::Mainnet } else { Network::Testnet };
+                    let mk = |n: Network, cid: CredentialRegistrationID| Request { challenge, credential_statements: vec![CredentialStatement::Account { network: n, cred_id: cid, statement: stm.clone() }] };
+                    try_lie("account_meta_issuer_from_start", mk(*network, *cred_id), CommitmentInputs::Account { issuer: IpIdentity(issuer.0 + 1), values, randomness: rand }, &public);
+                    try_lie("account_meta_network_from_start", mk(on, *cred_id), CommitmentInputs::Account { issuer: *issuer, values, randomness: rand }, &public);
+                    if !ss.is_empty() {
+                        // names another registered credential: the verifier resolves THAT credential's commitments
+                        let w2: World<W> = build_world(&global, al, &mut csprng);
+                        let cid2 = CredentialRegistrationID::from_exponent(&global, ArCurve::generate_scalar(&mut csprng));
+                        try_lie("account_cred_id_of_other_credential", mk(*network, cid2), CommitmentInputs::Account { issuer: *issuer, values, randomness: rand },
+                                &[CredentialsInputs::Account { commitments: w2.coms }]);
+                    }
+                    try_lie("account_presented_against_web3_public_data", mk(*network, *cred_id), CommitmentInputs::Account { issuer: *issuer, values, randomness: rand },
+                            &[CredentialsInputs::Web3 { issuer_pk: SigningKey::generate(&mut csprng).verifying_key().into() }]);
+                }
+                Cred::Web3 { ss, signer, issuer_key, contract, network, ty, values, rand, signature, .. } => {
+                    let stm: Vec<_> = ss.iter().map(|s| mk_stmt::<W, _>(s, s.tag().to_string())).collect();
+                    let on = if *network == Network::Testnet { Network::Mainnet } else { Network::Testnet };
+                    let mk = |n: Network, ct: ContractAddress, holder: &SigningKey, t: BTreeSet<String>| Request { challenge, credential_statements: vec![CredentialStatement::Web3Id {
+                        ty: t, network: n, contract: ct, credential: CredentialHolderId::new(holder.verifying_key()), statement: stm.clone() }] };
+                    fn inp_of<'x>(signature: &ed25519_dalek::Signature, sg: &'x SigningKey, values: &'x BTreeMap<String, W>, rand: &'x BTreeMap<String, PedersenRandomness<ArCurve>>) -> CommitmentInputs<'x, ArCurve, W, SigningKey> {
+                        CommitmentInputs::Web3Issuer { signature: *signature, signer: sg, values, randomness: rand }
+                    }
+                    let inp = |sg| inp_of(signature, sg, values, rand);
+                    let other_contract = ContractAddress::new(contract.index + 1, contract.subindex);
+                    try_lie("web3_contract_from_start", mk(*network, other_contract, signer, ty.clone()), inp(signer), &public);
+                    let other_issuer = SigningKey::generate(&mut csprng);
+                    try_lie("web3_contract_from_start_vs_its_registry_key", mk(*network, other_contract, signer, ty.clone()), inp(signer),
+                            &[CredentialsInputs::Web3 { issuer_pk: other_issuer.verifying_key().into() }]);
+                    let other_holder = SigningKey::generate(&mut csprng);
+                    try_lie("web3_holder_from_start", mk(*network, *contract, &other_holder, ty.clone()), inp(&other_holder), &public);
+                    try_lie("web3_presented_against_account_public_data", mk(*network, *contract, signer, ty.clone()), inp(signer),
+                            &[CredentialsInputs::Account { commitments: BTreeMap::new() }]);
+                    // asserted by the holder only (not covered by the issuer's signature)
+                    try_lie("web3_holder_asserted_network_from_start", mk(on, *contract, signer, ty.clone()), inp(signer), &public);
+                    let mut ty2 = ty.clone(); ty2.insert("SomeOtherCredentialType".into());
+                    try_lie("web3_holder_asserted_type_from_start", mk(*network, *contract, signer, ty2), inp(signer), &public);
+                    let _ = issuer_key;
+                }
+            }
+        }
     }
     // rogue signers: the honest prover API with a signer that signs with another key / other bytes
     for (name, flip, other) in [("rogue_signer_other_key", false, true), ("rogue_signer_other_bytes", true, false)] {
